@@ -25,7 +25,7 @@ ASSUMPTIONS = [
     "is judged only when both groups are non-empty (an empty second group makes the call a one-group call)",
     "a group member is 'a non-amino-acid' when it is not a one-letter code of the 20 standard residues in either case",
 ]
-REQUIRED = {"all": ["omega_identity", "kappa_identity", "swap_pairs", "complement_pairs", "case_order_variants",
+REQUIRED = {"all": ["salted_objects", "omega_identity", "kappa_identity", "swap_pairs", "complement_pairs", "case_order_variants",
                     "invalid_groups_rejected", "nontrivial_two_group", "omega_sequence_checked", "objects_with_phosphosites"]}
 NSEQ = {"quick": 350, "thorough": 3500}
 HI = {"quick": 80, "thorough": 200}
